@@ -26,6 +26,7 @@ RULE = ('one evaluation = one seeded run: either 2-3 clients (shared object / ow
         'counts) and a clean directory; non-trivial = a context switch happened or a block aborted after at least one write; '
         'distinct = SHA-256 of the seam event log')
 RULE += ' ' + 'A quarter of the abort cases first make a block entry give up while it waits for a foreign write lock.'
+RULE += ' ' + 'One aborting block in eight forks a child process (which exits at once) from inside the block.'
 ASSUMPTIONS = ['FanoutCache blocks are additionally checked against the weaker per-shard-atomic model to tell the known finding F8 from any other failure']
 PROBES = ('blocks_committed', 'blocks_aborted', 'nested_block', 'abort_after_file_write', 'other_thread_timeout', 'lock_wait', 'entry_interrupted')
 TECHNIQUE = 'deterministic simulation: seeded schedules + raise-point injection; linearizability with blocks as atomic multi-step operations; before/after state comparison for aborts'
